@@ -18,6 +18,12 @@
 (*   lattice of weighted log-probabilities that reaches below the          *)
 (*   underflow threshold of exp(), in the shifted (stable) form and -- for *)
 (*   the negative run -- in the naive form ln(sum(exp(.))) of the code.    *)
+(*   Scenario "runs": the n_runs / max_n_iterations loop of                 *)
+(*   GmmValidParams::fit on abstract gain sequences (no change / change     *)
+(*   below / above the tolerance), runs continuing from the previous state  *)
+(*   (the code) or re-initialised: the budget-stability clause used by      *)
+(*   Trace_Gmm is a consequence of "Ok <=> the selected run converged"; a   *)
+(*   convergence flag that is not reset between runs (negative run) is not. *)
 (***************************************************************************)
 EXTENDS Elem, TLC
 
@@ -26,7 +32,8 @@ CONSTANTS MaxN,          \* em scenario: datasets with n <= MaxN samples
           MaxC,          \* lattice coordinates 0..MaxC
           MaxK,          \* components 1..MaxK
           RD,            \* responsibilities are multiples of 1/RD
-          Forms          \* subset of {"stable", "naive"}: log-sum-exp forms explored by Query
+          Forms          \* subset of {"stable", "naive"}: log-sum-exp forms explored by Query ;
+                         \* "sticky" \in Forms: the convergence flag of fit is not reset between runs
 
 VARIABLES pc, scen, X, Rsp, kk, reg, rnd, mdl, wlp, row
 
@@ -186,6 +193,49 @@ NoRow == [num |-> TRUE, proba |-> <<>>, label |-> 0]
 
 LexLe(a, b) == IF a[1] # b[1] THEN a[1] < b[1] ELSE IF Len(a) = 1 THEN TRUE ELSE a[2] <= b[2]
 SortedRows(x) == \A i \in 1..(Len(x) - 1) : LexLe(x[i], x[i + 1])
+\* ---- scenario "runs": GmmValidParams::fit's loop over n_runs x max_n_iterations on a gain sequence g
+RunsL == 9                  \* 3 runs x budget 3
+Seg == 3                    \* re-initialising variant: run j works on g[(j-1) Seg + 1 ..]
+\* one run from position s with budget m: the first iteration compares with -infinity (never converged),
+\* iteration i >= 2 stops the run when the change of the lower bound is below the tolerance
+RECURSIVE RunFrom(_, _, _, _)
+RunFrom(g, s, m, i) ==      \* i = iterations done so far ; result <<end position, converged>>
+  IF i >= 2 /\ g[s + i] <= 1 THEN <<s + i, TRUE>>
+  ELSE IF i = m THEN <<s + i, FALSE>>
+  ELSE RunFrom(g, s, m, i + 1)
+RECURSIVE GainSum(_, _, _)
+GainSum(g, a, b) == IF b <= a THEN 0 ELSE g[b] + GainSum(g, a, b - 1)      \* lower bound at b relative to a
+\* state of the loop: <<position, best lower bound (-1 = -infinity), selected <<run, end>>, its flag, flag>>
+RECURSIVE FitLoop(_, _, _, _, _, _, _)
+FitLoop(g, m, r, cont, sticky, j, st) ==
+  IF j > r THEN st
+  ELSE LET s  == IF cont THEN st[1] ELSE (j - 1) * Seg
+           base == IF cont THEN 0 ELSE (j - 1) * Seg
+           re == RunFrom(g, s, m, 1)
+           fl == IF sticky THEN st[5] \/ re[2] ELSE re[2]          \* `converged_iter` (reset per run, or not)
+           lb == GainSum(g, base, re[1])
+       IN FitLoop(g, m, r, cont, sticky, j + 1,
+                  IF lb > st[2] THEN <<re[1], lb, <<j, re[1]>>, fl, fl>> ELSE <<re[1], st[2], st[3], st[4], fl>>)
+\* result of fit: <<"ok", selected run and its end state>> or <<"err">>
+FitRes(g, m, r, cont, sticky) ==
+  LET st == FitLoop(g, m, r, cont, sticky, 1, <<0, -1, <<0, 0>>, FALSE, FALSE>>)
+  IN IF st[4] THEN <<"ok", st[3]>> ELSE <<"err">>
+\* the clause of Trace_Gmm: if the fits with n_runs = 1 .. r are all Ok and each differs from the one
+\* before, the fit with a larger budget returns the same model
+BudgetStable(g, m, m2, r, cont, sticky) ==
+  LET F(j) == FitRes(g, m, j, cont, sticky) IN
+  (/\ \A j \in 1..r : F(j)[1] = "ok"
+   /\ \A j \in 2..r : F(j) # F(j - 1))
+  => FitRes(g, m2, r, cont, sticky) = F(r)
+\* the statement itself on the abstract loop: Ok => the selected run converged within its budget
+SelectedConverged(g, m, r, cont, sticky) ==
+  LET f == FitRes(g, m, r, cont, sticky) IN
+  f[1] = "ok" =>
+    LET j == f[2][1]
+        st == FitLoop(g, m, j - 1, cont, sticky, 1, <<0, -1, <<0, 0>>, FALSE, FALSE>>)
+        s == IF cont THEN st[1] ELSE (j - 1) * Seg
+    IN RunFrom(g, s, m, 1) = <<f[2][2], TRUE>>
+
 \* the scenario is chosen in two steps (configuration, then data and responsibilities) so that TLC's
 \* workers share the exploration
 Init ==
@@ -193,9 +243,10 @@ Init ==
   /\ scen = "none" /\ kk = 0 /\ rnd = 0 /\ X = <<>> /\ Rsp = <<>> /\ reg = <<0, 1>>
 ChooseCfg ==
   /\ pc = "boot"
-  /\ scen' \in {"em", "lse", "pd"}
+  /\ scen' \in {"em", "lse", "pd", "runs"}
   /\ kk' \in 1..MaxK
-  /\ IF scen' = "pd" THEN /\ rnd' \in {-1, 0, 1} /\ reg' \in {<<1, 1>>, <<37, 1>>, <<1000, 1>>, <<99999, 1>>}
+  /\ IF scen' = "runs" THEN /\ rnd' = 0 /\ reg' = <<0, 1>> /\ X' \in [1..2 -> 0..2]
+     ELSE IF scen' = "pd" THEN /\ rnd' \in {-1, 0, 1} /\ reg' \in {<<1, 1>>, <<37, 1>>, <<1000, 1>>, <<99999, 1>>}
                           /\ X' = <<>>
      ELSE IF scen' = "em"
        THEN /\ rnd' \in {0, 1} /\ reg' \in Regs
@@ -205,7 +256,10 @@ ChooseCfg ==
   /\ UNCHANGED <<Rsp, mdl, wlp, row>>
 ChooseData ==
   /\ pc = "cfg"
-  /\ IF scen = "pd"
+  /\ IF scen = "runs"
+       THEN /\ \E t \in [1..(RunsL - 2) -> 0..2] : X' = X \o t       \* the gain of every EM step: 0 none, 1 < tolerance, 2 > tolerance
+            /\ Rsp' = <<>>
+     ELSE IF scen = "pd"
        THEN \* X = L . L^T for a lower-triangular integer L with positive diagonal: exactly positive definite
             /\ \E dg \in [1..3 -> 1..2], od \in [1..3 -> -1..1] :
                  LET L == << <<dg[1], 0, 0>>, <<od[1], dg[2], 0>>, <<od[2], od[3], dg[3]>> >>
@@ -352,6 +406,20 @@ PdBroken == [i \in 1..3 |-> [j \in 1..3 |->
                IF {i, j} = {1, 2} THEN 2 * Max2(X[1][1], X[2][2]) * reg[1] ELSE X[i][j] * reg[1]]]
 InvPd3 ==
   (pc = "init" /\ scen = "pd") => PdOk(PdScaled, 3) /\ (reg[1] >= 37 => ~PdOk(PdBroken, 3))
+
+\* fit's run loop: Ok => the selected run converged, and the budget-stability consequence, for the
+\* code's continuing runs and for re-initialised runs (with "sticky" \in Forms both must fail: negative run)
+InvBudget ==
+  (pc = "init" /\ scen = "runs") =>
+    \A cont \in BOOLEAN : \A r \in 1..3 :
+      /\ SelectedConverged(X, 2, r, cont, "sticky" \in Forms)
+      /\ SelectedConverged(X, 3, r, cont, "sticky" \in Forms)
+      /\ BudgetStable(X, 2, 3, r, cont, "sticky" \in Forms)
+
+\* the trace clause alone (used by the negative run: it must notice the flag that is not reset)
+InvBudgetClause ==
+  (pc = "init" /\ scen = "runs") =>
+    \A cont \in BOOLEAN : \A r \in 1..3 : BudgetStable(X, 2, 3, r, cont, "sticky" \in Forms)
 
 \* sensitivity of the predicates (non-vacuity): a perturbed encoding must be rejected
 Bump(m, f, c, j, l, by) == [m EXCEPT ![f][c][j][l] = @ + by]
